@@ -35,6 +35,8 @@ import (
 //	store <name>                                    -> ok
 //	localget <name> | get <name>                    -> some <name> | none
 //	fetch-answer <name> <reply>... [arrive=<name>]  reply: declared name | none | lying
+//	fetch-overlap <name> on|off                     -> ok   while a fetch of <name> is in flight, ANOTHER complete Get of the same
+//	                                                   hash runs (its own fetch finds nothing) before anything arrives
 //	extends <b> <t>                                 -> true | false
 //	prune <committed> <height>                      -> forked=[names, in reported order]
 //	trycommit <b> <target|nil>                      -> nothing | error | ok exec=[..] abort=[..] committed=<name>
@@ -70,8 +72,10 @@ type fetchCfg struct {
 
 // scriptSender is the network: RequestBlock answers from the script, through RequestBlockQF.
 type scriptSender struct {
-	f   *chainFam
-	cfg map[hotstuff.Hash]fetchCfg
+	f       *chainFam
+	cfg     map[hotstuff.Hash]fetchCfg
+	overlap map[hotstuff.Hash]bool
+	nested  bool
 }
 
 func (s *scriptSender) NewView(hotstuff.ID, hotstuff.SyncInfo) error { return nil }
@@ -85,6 +89,15 @@ func (s *scriptSender) Sub([]hotstuff.ID) (core.Sender, error)       { return s,
 // reply is converted with BlockFromProto.  A block stored by "another goroutine" while the call
 // is in flight is stored first; if that cancelled the context the call fails like a gorums call.
 func (s *scriptSender) RequestBlock(ctx context.Context, hash hotstuff.Hash) (*hotstuff.Block, bool) {
+	if s.nested {
+		return nil, false // the overlapping Get's own fetch: nobody answers
+	}
+	if s.overlap[hash] {
+		// "another goroutine" gets the same hash while this fetch is in flight (Get holds no lock here)
+		s.nested = true
+		s.f.bc.Get(hash)
+		s.nested = false
+	}
 	c, ok := s.cfg[hash]
 	if !ok {
 		return nil, false
@@ -140,7 +153,7 @@ func newChainFam() *chainFam {
 	env := newCryptoEnv(crypto.NameECDSA, 1)
 	logger := logging.NewWithDest(io.Discard, "verif")
 	f.el = eventloop.New(logger, 1<<14)
-	f.snd = &scriptSender{f: f, cfg: map[hotstuff.Hash]fetchCfg{}}
+	f.snd = &scriptSender{f: f, cfg: map[hotstuff.Hash]fetchCfg{}, overlap: map[hotstuff.Hash]bool{}}
 	f.bc = blockchain.New(f.el, logger, f.snd)
 	auth := cert.NewAuthority(env.cfgs[0], f.bc, env.bases[0])
 	vs, err := protocol.NewViewStates(f.bc, auth)
@@ -315,6 +328,16 @@ func (f *chainFam) op1(a []string) string {
 			c.replies = append(c.replies, r)
 		}
 		f.snd.cfg[b.Hash()] = c
+		return "ok"
+	case "fetch-overlap":
+		if len(a) != 3 || (a[2] != "on" && a[2] != "off") {
+			return "bad-op"
+		}
+		b, ok := f.blocks[a[1]]
+		if !ok {
+			return "bad-op"
+		}
+		f.snd.overlap[b.Hash()] = a[2] == "on"
 		return "ok"
 	case "extends":
 		if len(a) != 3 {
